@@ -77,8 +77,27 @@ func (p poly) String() string {
 // polyOf turns an SSA arithmetic expression into a polynomial; atom names a
 // leaf (field load, parameter, T(field) for math.Pow10(int(field))).
 func polyOf(v ssa.Value, atom func(ssa.Value) string) (poly, error) {
+	return polyOfIn(nil, v, atom)
+}
+
+// polyOfIn is polyOf in the flattened view of root: a term that is the result
+// of a spliced helper (or one of its parameters) is followed to what it stands
+// for when that is a single value.
+func polyOfIn(root *ssa.Function, v ssa.Value, atom func(ssa.Value) string) (poly, error) {
 	if a := atom(v); a != "" {
 		return polyAtom(a), nil
+	}
+	if root != nil {
+		switch v.(type) {
+		case *ssa.Extract, *ssa.Parameter, *ssa.Phi:
+			if os := viewOrigins(root, v); len(os) == 1 && os[0] != v {
+				return polyOfIn(root, os[0], atom)
+			}
+		case *ssa.Call:
+			if os := viewOrigins(root, v); len(os) == 1 && os[0] != v {
+				return polyOfIn(root, os[0], atom)
+			}
+		}
 	}
 	switch x := v.(type) {
 	case *ssa.Const:
@@ -93,15 +112,15 @@ func polyOf(v ssa.Value, atom func(ssa.Value) string) (poly, error) {
 		}
 		return nil, fmt.Errorf("non-integer constant %v", x)
 	case *ssa.Convert:
-		return polyOf(x.X, atom)
+		return polyOfIn(root, x.X, atom)
 	case *ssa.ChangeType:
-		return polyOf(x.X, atom)
+		return polyOfIn(root, x.X, atom)
 	case *ssa.BinOp:
-		l, err := polyOf(x.X, atom)
+		l, err := polyOfIn(root, x.X, atom)
 		if err != nil {
 			return nil, err
 		}
-		r, err := polyOf(x.Y, atom)
+		r, err := polyOfIn(root, x.Y, atom)
 		if err != nil {
 			return nil, err
 		}
@@ -628,7 +647,23 @@ func checkSensorReaders(c *Ctx, r *Report) {
 		okFlow := false
 		if pc, ok := conv.Call.Args[1].(*ssa.Call); ok && pc.Call.IsInvoke() && pc.Call.Method.Name() == "Parse" {
 			if ld, ok := pc.Call.Args[0].(*ssa.UnOp); ok && apOf(ld.X).SelString() == fReading+".Rsp.Reading" {
-				if apOf(pc.Call.Value).SelString() == "parser" && apOf(conv.Call.Args[0]).SelString() == "factors" {
+				// the parser and the factors are the reader's own (its one field of each type)
+				pa, fa := apOf(pc.Call.Value), apOf(conv.Call.Args[0])
+				ownField := func(a AP, typ string) bool {
+					if len(a.Sel) != 1 {
+						return false
+					}
+					if cp := cellParam0(a.Root); a.Root != ssa.Value(lin.Params[0]) && (cp == nil || ssa.Value(cp) != ssa.Value(lin.Params[0])) {
+						return false
+					}
+					rn := recvNamed(lin)
+					if rn == nil {
+						return false
+					}
+					f := c.Field(rn, a.Sel[0])
+					return f != nil && types.TypeString(f.Type(), nil) == modPath+"/pkg/ipmi."+typ
+				}
+				if ownField(pa, "AnalogDataFormatParser") && ownField(fa, "ConversionFactors") {
 					okFlow = true
 				}
 			}
@@ -640,7 +675,7 @@ func checkSensorReaders(c *Ctx, r *Report) {
 	allInstrs(lsd, false, func(in ssa.Instruction) {
 		if call, ok := in.(*ssa.Call); ok && call.Call.IsInvoke() && call.Call.Method.Name() == "Linearise" {
 			if ex, ok := call.Call.Args[0].(*ssa.Extract); ok && ex.Index == 0 {
-				if rc, ok := ex.Tuple.(*ssa.Call); ok && rc.Call.StaticCallee() == lin && apOf(call.Call.Value).SelString() == "lineariser" {
+				if rc, ok := ex.Tuple.(*ssa.Call); ok && rc.Call.StaticCallee() == lin && len(apOf(call.Call.Value).Sel) == 1 {
 					for _, ret := range returnsOf(lsd) {
 						if ret.Results[0] == ssa.Value(call) && isNilConst(ret.Results[1]) {
 							okL = true
